@@ -196,6 +196,35 @@ clear_table (pixman_glyph_cache_t *cache)
     cache->n_tombstones = 0;
 }
 
+#ifdef PIXMAN_VERIF
+/* Verification hook (only with -DPIXMAN_VERIF): the cache's counters and
+ * what the table really contains, so that a harness can check that they
+ * agree.  Read-only.
+ */
+void
+pixman_verif_glyph_cache_stats (pixman_glyph_cache_t *cache,
+				int                  *n_glyphs,
+				int                  *n_tombstones,
+				int                  *actual_glyphs,
+				int                  *actual_tombstones)
+{
+    int i;
+
+    *n_glyphs = cache->n_glyphs;
+    *n_tombstones = cache->n_tombstones;
+    *actual_glyphs = 0;
+    *actual_tombstones = 0;
+
+    for (i = 0; i < HASH_SIZE; ++i)
+    {
+	if (cache->glyphs[i] == TOMBSTONE)
+	    (*actual_tombstones)++;
+	else if (cache->glyphs[i])
+	    (*actual_glyphs)++;
+    }
+}
+#endif
+
 PIXMAN_EXPORT pixman_glyph_cache_t *
 pixman_glyph_cache_create (void)
 {
